@@ -59,7 +59,15 @@ func (p *Paragraph) WriteTo(out io.Writer) error {
 	for _, key := range p.Order {
 		/* The reader ends every folded value with a newline. That one
 		 * closes the last line, it is not a line of its own. */
-		lines := strings.Split(strings.TrimSuffix(p.Values[key], "\n"), "\n")
+		value := p.Values[key]
+		folded := strings.HasSuffix(value, "\n")
+		lines := strings.Split(strings.TrimSuffix(value, "\n"), "\n")
+		if folded && (lines[0] == "" || lines[0][0] == ' ' || lines[0][0] == '\t') {
+			/* A folded value that starts with an empty or an indented
+			 * line was read from continuation lines only ("Files:"
+			 * layout); on the key line it would be lost or trimmed. */
+			lines = append([]string{""}, lines...)
+		}
 		for i := 1; i < len(lines); i++ {
 			if strings.TrimSpace(lines[i]) == "" {
 				/* an empty line would end the paragraph */
